@@ -26,6 +26,8 @@ R-GEN-MEMO       a changed function keeps a result in a store the reference modu
                  reference body reads; a module-level memo must be keyed on everything the reference body reads from its parameters
 R-GEN-ACCUM      a counter / accumulator the reference advances (`x += e`) is advanced under more tests than in the reference (it is
                  updated on one branch only)
+R-GEN-STORE      a store into a container under a key (`m[k] = v`) that the reference function makes is gone while the function still
+                 uses the container (bookkeeping of two parallel structures drifts apart)
 R-GEN-CARRY      a loop-carried copy (`prev = cur` in a loop body) changed places: reads of `prev` that saw the value of the previous
                  round now see the current one (or the reverse)
 R-GEN-STOREORDER the stores to self that the reference method makes in one block are made in another order (a value that fails
@@ -36,7 +38,7 @@ import ast
 from .. import equiv, gate, loader, rx
 from . import common
 
-RULES = ('R-GEN-ACCUM', 'R-GEN-CARRY', 'R-GEN-STATE', 'R-GEN-SEEK', 'R-GEN-MEMO', 'R-GEN-STOREORDER', 'R-GEN-NONE', 'R-GEN-LENGTH', 'R-GEN-SENTINEL', 'R-GEN-SUBSTR', 'R-GEN-ISINSTANCE', 'R-GEN-REGEX', 'R-GEN-CODEC', 'R-GEN-CASE', 'R-GEN-DTYPE', 'R-GEN-CONST', 'R-GEN-PREFIX', 'R-GEN-CONV')
+RULES = ('R-GEN-STORE', 'R-GEN-ACCUM', 'R-GEN-CARRY', 'R-GEN-STATE', 'R-GEN-SEEK', 'R-GEN-MEMO', 'R-GEN-STOREORDER', 'R-GEN-NONE', 'R-GEN-LENGTH', 'R-GEN-SENTINEL', 'R-GEN-SUBSTR', 'R-GEN-ISINSTANCE', 'R-GEN-REGEX', 'R-GEN-CODEC', 'R-GEN-CASE', 'R-GEN-DTYPE', 'R-GEN-CONST', 'R-GEN-PREFIX', 'R-GEN-CONV')
 
 
 def _txt(e):
@@ -169,7 +171,7 @@ def _aug_guards(fn):
                 rec(st.orelse, guards | {'else ' + _txt(st.test)})
             elif isinstance(st, (ast.For, ast.AsyncFor, ast.While)):
                 rec(st.body, guards)
-                rec(st.orelse, guards)
+                rec(st.orelse, guards | {'else of the loop (no break taken)'} if any(isinstance(b, ast.Break) for b in ast.walk(st)) else guards)
             elif isinstance(st, (ast.With, ast.AsyncWith)):
                 rec(st.body, guards)
             elif isinstance(st, ast.Try):
@@ -562,6 +564,25 @@ def check(rep, ix):
                 if k_ in ccar:
                     rep.ob('R-GEN-CARRY', site, f'`{k_[0]} = {k_[1]}` stands where the validated loop has it (reads of `{k_[0]}` before / after it)', rcar[k_] == ccar[k_], found=f'{ccar[k_][0]} reads before, {ccar[k_][1]} after',
                            required=f'{rcar[k_][0]} reads before, {rcar[k_][1]} after', module=mod, node=f)
+            # ---- keyed stores that are gone
+            def keyed_stores(fn):
+                out = {}
+                for n in ast.walk(fn):
+                    if isinstance(n, (ast.Assign, ast.AugAssign)):
+                        for t in (n.targets if isinstance(n, ast.Assign) else [n.target]):
+                            if isinstance(t, ast.Subscript):
+                                k = (_txt(t.value), _txt(t.slice))
+                                out[k] = out.get(k, 0) + 1
+                return out
+            rks, cks = keyed_stores(rf), keyed_stores(f)
+            cur_texts = {_txt(n) for n in ast.walk(f) if isinstance(n, (ast.Name, ast.Attribute))}
+            for (cont, key), cnt in sorted(rks.items()):
+                have = cks.get((cont, key), 0)
+                if have >= cnt:
+                    rep.ob('R-GEN-STORE', site, f'`{cont}[{key}]` is stored as often as in the validated function', True, module=mod, node=f)
+                elif cont in cur_texts and not any(c_ == cont and (c_, k_) not in rks for c_, k_ in cks):
+                    rep.ob('R-GEN-STORE', site, f'`{cont}[{key}]` is stored as often as in the validated function', False, found=f'{have} store(s) under `{key}`; `{cont}` is still used', required=f'{cnt} store(s)',
+                           module=mod, node=f)
             # ---- isinstance class sets
             ri, ci = _isinstance_tests(rf), _isinstance_tests(f)
             for x in sorted(ri):
